@@ -110,3 +110,46 @@ Example C01_example_parsed :
   exists a, from_bytes BE ex_file = Ok a /\ a_text a = [(0, [83])] /\ a_ptrs a = [(4, 8)] /\
             a_labels a = [(8, [[69]; [65]]); (0, [[65]])].
 Proof. vm_compute. eexists. repeat split. Qed.
+
+(* ---- "yields an archive of the same size ... also when strings and c-strings are mixed" (review r1, C01-1) ----
+   The literal reading - the parsed archive has exactly the size of the serialized one - is FALSE of the format (hence of
+   code and model alike) as soon as a c-string is pending: serialize appends the pool of pending c-strings (each NUL-terminated,
+   the whole padded to 4) to the data region and points the cells into it, so the pool IS data of the parsed archive.
+   The reading that holds, and that C01_round_trip states (DESIGN 1.6): size a' = size a + |padded pool|, the pool length is a
+   multiple of 4, and the sizes are EQUAL whenever no c-string is pending. *)
+From Mila Require Import Proofs.BinRoundTripSize.
+Definition C01_same_size_full : Prop :=
+  forall kf m a f a', wf_archive a -> fits32 a -> serialize_k kf m a = Ok f -> from_bytes (a_endian a) f = Ok a' -> size a' = size a.
+(* ex_archive: 14 data bytes and the c-string "cs" pending at cell 4; the parsed archive has 14 + |"cs\0" padded to 4| = 18 bytes *)
+Theorem C01_same_size_refuted :
+  exists kf m a f a', wf_archive a /\ fits32 a /\ serialize_k kf m a = Ok f /\ from_bytes (a_endian a) f = Ok a' /\
+                      size a = 14 /\ size a' = 18.
+Proof. exact same_size_refuted. Qed.
+Theorem C01_same_size_partial : forall kf m a f a',
+  wf_archive a -> fits32 a -> serialize_k kf m a = Ok f -> from_bytes (a_endian a) f = Ok a' ->
+  size a' = size a + lenN (pool_bytes a) /\ lenN (pool_bytes a) mod 4 = 0 /\ (a_cstrs a = [] -> size a' = size a).
+Proof. exact round_trip_size. Qed.
+
+(* ---- empty label buckets (review r1, C01-2) ----
+   [wf_archive] demands non-empty buckets (wf_labels), yet the API builds empty ones: write_labels(a, vec![]) and delete_label
+   of the last label leave `labels[a] = []`.  The format stores (address, name) ENTRIES, not buckets, so an empty bucket has no
+   image: read_labels answers Some [] before the round trip and None after it - in the code and in the model alike (Example
+   below; `./check C01` stream empty-buckets).  This is the right reading of "the same labels in the same per-address order": the
+   labels of the archive are the (address, name) pairs that all_labels() lists, and these are the same before and after (here:
+   none); whether a bucket without labels exists is not content.  For archives with such buckets C01_round_trip therefore applies
+   to the archive with the empty buckets dropped; that the two serialize alike is checked by leg K/O, not proved. *)
+Example C01_example_empty_bucket :
+  (a <- write_labels (allocate_at_end (ba_new LE) 8) 0 [] ;;
+   f <- serialize Checked a ;; a' <- from_bytes LE f ;;
+   before <- read_labels a 0 ;; after <- read_labels a' 0 ;;
+   Ok (before, after, all_labels a, all_labels a', size a'))
+  = Ok (Some [], None, [], [], 8)
+  /\ (a0 <- write_label (allocate_at_end (ba_new BE) 8) 4 [76] ;; a <- delete_label a0 4 0 ;;
+      f <- serialize Checked a ;; a' <- from_bytes BE f ;;
+      before <- read_labels a 4 ;; after <- read_labels a' 4 ;;
+      Ok (before, after, all_labels a, all_labels a'))
+     = Ok (Some [], None, [], []).
+Proof. vm_compute. split; reflexivity. Qed.
+Example C01_example_empty_bucket_not_wf :
+  ~ wf_archive {| a_data := zeros 8; a_text := []; a_ptrs := []; a_labels := [(0, [])]; a_cstrs := []; a_endian := LE |}.
+Proof. intros H. destruct (wf_labels _ H 0 [] (or_introl eq_refl)) as (_ & Hne & _). congruence. Qed.
